@@ -716,6 +716,22 @@ class World:
             if kind == 'kill_node':
                 fn = 'kill_node'
                 presence.kill_node(self.admin, hostname)
+            elif kind == 'reg_identity':
+                fn = 'register_identity'
+                import types
+                from treadmill import exc as tm_exc
+                cl = self.srv.client('runtime-%s-%d' % (hostname, len(self.srv.log)))
+                cl.vf_actor = ('aux', hostname, kind, c['cid'])
+                man = {'name': c['instance'].split('#')[0] + '#0000099999', 'identity_group': c['identity_group'], 'endpoints': []}
+                real_time = presence.time
+                presence.time = types.SimpleNamespace(sleep=lambda _s: None, time=real_time.time)
+                try:
+                    presence.EndpointPresence(cl, man, hostname=hostname).register_identity()
+                    self.count('aux_identity_registrations_succeeded')
+                except tm_exc.ContainerSetupError:
+                    self.count('aux_identity_registrations_refused')       # the placeholder is held: the container aborts
+                finally:
+                    presence.time = real_time
             else:
                 ep = presence.EndpointPresence(self.admin, self._manifest(c), hostname=hostname,
                                                appname=c['instance'])
